@@ -660,9 +660,10 @@ func accessesCommute(obj interface{}, a, b string) bool {
 			return !o.closed && len(o.buf) >= 1 && len(o.buf) <= o.cap-1
 		}
 	case *wgKey:
-		// Add/Done are commutative updates as long as the counter cannot reach zero or go negative in between
+		// Add/Done are commutative updates; a transient zero matters only to a goroutine that is
+		// parked in Wait at that moment (and the counter cannot go negative when it is >= 2)
 		if a == "add" && b == "add" {
-			return o.st.counter >= 2
+			return o.st.counter >= 2 || (o.st.counter >= 1 && !o.waiterParked())
 		}
 	}
 	return false
@@ -688,7 +689,23 @@ func independent(a, b *SyncOp) bool {
 }
 
 // wgKey identifies a WaitGroup as a dependency object (and gives access to its counter).
-type wgKey struct{ st *SyncState }
+type wgKey struct {
+	st *SyncState
+	e  *Exec
+}
+
+// waiterParked: is some goroutine currently parked in Wait on this WaitGroup?
+func (k *wgKey) waiterParked() bool {
+	if k.e == nil {
+		return true
+	}
+	for _, t := range k.e.threads {
+		if !t.done && t.op != nil && t.op.kind == "wg.wait" && t.op.obj == interface{}(k) {
+			return true
+		}
+	}
+	return false
+}
 
 // runPath executes the harness to completion under the decision trail.
 func (e *Exec) runPath(entry *ssa.Function) {
